@@ -1,26 +1,49 @@
 #define KF_EXCL_C12_number_ctor_uninit 1
+#define PRE_K 2
+#define PRE_N 2
+#define PRE_E1 5
+#define PRE_E2 4
+#define SRC_K 3
+#define SRC_N 1
+#ifndef VAR
+#define VAR 0
+#endif
 #include "C12_value.cpp"
-extern "C" void h_p1() {
-    u64 x = vf_u64();
-    { V v;
-    v["a"] = x;
-    v["b"] = nullptr;
-    vf_assert(v.Size() == 2, 1);
-    V *p = v.GetValue("a", 1);
-    vf_assert(p != nullptr && p->GetUInt64() == x, 2);
-    const ST k("b", 1);
-    v.Remove(k);
-    vf_assert(v.GetValue("b", 1) == nullptr, 3); }
+extern "C" void h_p1() {   // build both, move-assign, destroy; no observers
+    M m; M tm; M sm; M stm; Slot sv, st, ss, sst;
+    V *v = nullptr; V *t = nullptr; V *src = nullptr; V *srct = nullptr;
+    mk<PreC>(sv, st, m, tm, v, t);
+    mk<SrcC>(ss, sst, sm, stm, src, srct);
+    *v = Memory::Move(*src);
+    vf_assert(v->Size() == 1, 1);
+    src->~V(); v->~V();
     vf_witness();
 }
-extern "C" void h_p2() {
-    u64 x = vf_u64();
-    { V v;
-    v["a"] = x;
-    v["b"] = nullptr;
-    V c(v);
-    v["ab"] = true;
-    vf_assert(c.Size() == 2 && v.Size() == 3, 1);
-    }
+extern "C" void h_p2() {   // + final obs
+    M m; M tm; M sm; M stm; Slot sv, st, ss, sst;
+    V *v = nullptr; V *t = nullptr; V *src = nullptr; V *srct = nullptr;
+    mk<PreC>(sv, st, m, tm, v, t);
+    mk<SrcC>(ss, sst, sm, stm, src, srct);
+    *v = Memory::Move(*src);
+    m = sm;
+#if VAR == 0
+    obs_node(*v, m.n);
+#elif VAR == 1
+    vf_assert(v->Type() == T::Array, 5); vf_assert(v->GetValue(0) != nullptr, 6);
+#elif VAR == 2
+    { V *p = v->GetValue(0); obs_node(*p, m.e[0]); }
+#endif
+    src->~V(); v->~V();
+    vf_witness();
+}
+extern "C" void h_p3() {   // + pre obs only
+    M m; M tm; M sm; M stm; Slot sv, st, ss, sst;
+    V *v = nullptr; V *t = nullptr; V *src = nullptr; V *srct = nullptr;
+    mk<PreC>(sv, st, m, tm, v, t);
+    obs_doc(*v, m);
+    mk<SrcC>(ss, sst, sm, stm, src, srct);
+    *v = Memory::Move(*src);
+    vf_assert(v->Size() == 1, 1);
+    src->~V(); v->~V();
     vf_witness();
 }
